@@ -97,6 +97,13 @@ def table : List Entry := [
   { name := "nonconvex_optimization.gradient_descent", params := ["L", "n"],
     inDomain := fun p => match p with | [L, n] => L > 0 && n >= 1 | _ => false,
     value := fun p => match p with | [L, n] => 4 / 3 * L / n | _ => 0 },
+  { name := "stochastic_and_randomized_convex_minimization.sgd", params := ["L", "mu", "v", "R"],
+    inDomain := fun p => match p with | [L, mu, v, R] => mu > 0 && mu < L && v >= 0 && R > 0 | _ => false,
+    value := fun p => match p with
+      | [L, mu, v, R] =>
+        let q := 1 - mu / L
+        0.5 * sq q * sq R + 0.5 * q * R * Float.sqrt (sq q * sq R + 4 * sq v / sq L) + sq v / sq L
+      | _ => 0 },
   { name := "composite_convex_minimization.douglas_rachford_splitting_contraction", params := ["mu", "L", "alpha", "n"],
     inDomain := fun p => match p with | [mu, L, a, n] => mu > 0 && mu < L && a > 0 && n >= 1 | _ => false,
     value := fun p => match p with
